@@ -30,6 +30,9 @@ CHECKS = {
     "C07": {"level": "exploration", "steps": [step("./c07_tree/", shards={"thorough": 8}, timeout={"quick": 600, "thorough": 3600})],
             "technique": PBT + "; round-trip (diff/apply) and aliasing metamorphic checks", "note": TREE_NOTE,
             "text": "All ordered pairs of bounded trees (incl. untracked/problematic/phantom) and random larger pairs: Apply(x,Diff(x,y))==y, Diff(x,x) empty, all four Copy behaviours stay equal to a pre-mutation rendering after the original is mutated, Apply equals a model apply on multi-change scripts and mutates nothing, filter and Count equal independent implementations."},
+    "C18": {"level": "exploration", "steps": [step("./c18_exec/", shards={"thorough": 8}, timeout={"quick": 600, "thorough": 3600})],
+            "technique": PBT + "; model-based multi-cycle histories", "note": TREE_NOTE + " The non-preserving endpoint is modelled as a scan that reports no executable bits and a filesystem that drops them.",
+            "text": "Every bounded (ancestor, preserving, non-preserving) triple and random 3-8 cycle edit histories are run through propagate -> reconcile -> ideal apply in both two-way modes and role assignments; the preserving side's bit must be unchanged wherever a file exists on both sides before and after and content was not edited on both sides; every bit set by propagation must be justified by matching content."},
     "C06": {"level": "exploration", "steps": RECONCILE(), "technique": PBT, "note": TREE_NOTE,
             "text": "Same enumeration: no two actions on equal or nested paths, every action sits at a first disagreement found by an independent walker, conflicts have changes on both sides within their root."},
 }
